@@ -950,9 +950,15 @@ def apiRegister (name : String) (slot : Nat) (flags : ModFlags) (hooks : Hooks) 
           -- `m_map_put` refuses a name that was taken meanwhile (by the replaced module's stop hook):
           -- the registration fails with the default error code
           if (s.modByName name).isSome then pure (-12)
-          else do
-            modify fun s => { s with mods := s.mods ++ [{ name := name, slot := slot, ctxId := c.id, flags := flags, hooks := hooks }] }
-            pure 0
+          else match s.ctx with
+            | some c' =>
+              -- the C code keeps using its `c` pointer: the context cannot have been released meanwhile
+              -- (it is protected by `destroying` during a replacement)
+              if c'.id == c.id then do
+                modify fun s => { s with mods := s.mods ++ [{ name := name, slot := slot, ctxId := c'.id, flags := flags, hooks := hooks }] }
+                pure 0
+              else do modify fun s => s.emit (.note "CTX-CHANGED-DURING-REGISTER"); pure (-12)
+            | none => do modify fun s => s.emit (.note "CTX-CHANGED-DURING-REGISTER"); pure (-12)
         match s.modByName name with
         | some old =>
           match s.mods[old]? with
